@@ -382,7 +382,56 @@ def r6_inline_templates_are_linear(ctx):
     ctx.note(f"C02.R6: {n} inline functions / templates of core.lpy analysed")
 
 
+COMPILER = "src/basilisp/lang/compiler/__init__.py"
+
+
+@rule("C02.R7", floor=3)
+def r7_eval_wrapper_is_private_to_its_evaluation(ctx):
+    """compile_and_exec_form (eval, load, REPL, nREPL) defines a wrapper function in the
+    namespace's module, calls it and deletes it.  The module is shared by every thread and every
+    nested eval of that namespace, so the wrapper's name must be fresh for each evaluated form
+    (genname inside the per-form loop) and the very same name must be used to define, fetch and
+    remove it: with a fixed name a concurrent or nested evaluation replaces the function between
+    `exec` and the call, and one form is evaluated twice while the other never runs."""
+    import ast as _ast
+    tree = ctx.py(COMPILER)
+    fn = P.find_def(tree, "compile_and_exec_form")
+    if fn is None:
+        raise AnalysisError("anchor vanished: compiler.compile_and_exec_form")
+    defs = [c for c in P.calls(fn) if P.un(c.func) == "_expressionize" and len(c.args) >= 2]
+    gets = [c for c in P.calls(fn) if P.un(c.func) == "getattr" and len(c.args) >= 2 and P.un(c.args[0]) == "ns.module"]
+    if not defs or not gets:
+        raise AnalysisError("anchor vanished: wrapper definition / lookup in compile_and_exec_form")
+    loop = next((f for f in _ast.walk(fn) if isinstance(f, _ast.For) and any(P.contains(f, d) for d in defs)), None)
+    name_exprs = {P.un(d.args[1]) for d in defs}
+    inst = f"{COMPILER}::compile_and_exec_form::wrapper name `{' / '.join(sorted(name_exprs))}`"
+    ok_fresh = False
+    why = "the wrapper is defined under more than one name expression"
+    if len(name_exprs) == 1 and isinstance(defs[0].args[1], _ast.Name):
+        nm = defs[0].args[1].id
+        assigns = [a for a in _ast.walk(fn) if isinstance(a, _ast.Assign) and any(isinstance(t, _ast.Name) and t.id == nm for t in a.targets)]
+        # fresh per call is enough: the forms of one call run one after the other and each removes its wrapper
+        ok_fresh = bool(assigns) and all(isinstance(a.value, _ast.Call) and P.un(a.value.func).split(".")[-1] == "genname" for a in assigns)
+        why = f"`{nm}` is not assigned from genname(...): different evaluations share one module-level name"
+    elif len(name_exprs) == 1:
+        why = f"the wrapper is defined under `{next(iter(name_exprs))}`, which is the same for every evaluation: two threads (or a nested eval) evaluating in one namespace call each other's wrapper"
+    ctx.ob("C02.R7", inst + " is fresh per evaluated form", COMPILER, defs[0].lineno, ok_fresh, "" if ok_fresh else why,
+           witness="two threads evaluating different forms in the same namespace: one form runs twice, the other never")
+    ok = all(P.un(g.args[1]) in name_exprs for g in gets)
+    ctx.ob("C02.R7", inst + " is the name looked up and called", COMPILER, gets[0].lineno, ok, "" if ok else "the function fetched from the module is not the one just defined")
+    dels = [d for d in _ast.walk(fn) if isinstance(d, _ast.Delete) and "ns.module" in P.un(d)] + [c for c in P.calls(fn) if P.un(c.func).endswith(".pop") and "ns.module" in P.un(c.func)]
+    ok = bool(dels) and all(any(x in P.un(d) for x in name_exprs) for d in dels)
+    ctx.ob("C02.R7", inst + " is removed from the module afterwards", COMPILER, getattr(dels[0], "lineno", fn.lineno) if dels else fn.lineno, ok, "" if ok else "the wrapper is not removed (or another name is removed)")
+
+
 SELFTEST = [
+    {"name": "eval wrapper under a fixed module-level name", "file": COMPILER, "expect": "C02.R7",
+     "old": "        final_wrapped_name = genname(wrapped_fn_name)\n", "new": "        final_wrapped_name = wrapped_fn_name\n"},
+    {"name": "twin: eval wrapper name generated once per call", "file": COMPILER, "expect": None,
+     "edits": [
+         {"file": COMPILER, "old": "        final_wrapped_name = genname(wrapped_fn_name)\n", "new": ""},
+         {"file": COMPILER, "old": "    last = _sentinel\n    for unrolled_form in _flatmap_forms([form]):\n", "new": "    last = _sentinel\n    final_wrapped_name = genname(wrapped_fn_name)\n    for unrolled_form in _flatmap_forms([form]):\n"},
+     ]},
     {"name": "chain without hoisting (the repaired defect)", "file": GEN, "expect": "C02.R1",
      "old": "        if i < last_with_deps and not isinstance(n.node, ast.Constant):", "new": "        if False:"},
     {"name": "invoke merges the callee by hand again", "file": GEN, "expect": "C02.R1",
